@@ -1,6 +1,7 @@
 """Seeded case generators, one per property.  Structural spaces are enumerated; payload values are random.
 Every generator returns a list of protocol lines (see /verif/PROTOCOL.md)."""
 import itertools, math, random
+from fractions import Fraction as _Fr
 from wire import *
 
 GRID = [(m, s) for m in range(-3, 4) for s in range(-3, 4)]
@@ -2175,6 +2176,8 @@ def cross_C19(lines, outs, models=None):
                     if n in chk_cfgs or k >= len(models.get(n, [])):
                         continue
                     v, detail = compare_lines(strip_units(row[n]), strip_units(models[n][k]), {"cat", "time", "float"}, None, True)
+                    if v == "hard" and _mixed_time_conformant(c, row[n], models[n][k]):
+                        continue        # an admissible Time -> seconds conversion other than the model's (C18 owns that number)
                     if v == "hard":
                         bad.append((c, "unchecked configuration %s does not compute the plain arithmetic on the values: %s" % (n, detail)))
             continue
@@ -2212,12 +2215,99 @@ def _exact_f32(h):
     return sign * _Fr((1 << 23) + man) * (_Fr(2) ** (ex - 150))
 
 
+def _rne32_bits(x):
+    """bit pattern of the binary32 nearest to the rational x (ties to even, overflow -> inf); exact, no double rounding"""
+    if x == 0:
+        return 0
+    sign = 0x80000000 if x < 0 else 0
+    a = -x if x < 0 else x
+    # exponent e with 2^e <= a < 2^(e+1)
+    e = a.numerator.bit_length() - a.denominator.bit_length()
+    if _Fr(2) ** e > a:
+        e -= 1
+    elif _Fr(2) ** (e + 1) <= a:
+        e += 1
+    e = max(e, -126)
+    q = a / (_Fr(2) ** (e - 23))          # in [2^23, 2^24) for normals, below 2^23 for subnormals
+    n = q.numerator // q.denominator
+    r = q - n
+    if r > _Fr(1, 2) or (r == _Fr(1, 2) and n % 2 == 1):
+        n += 1
+    if n >= 1 << 24:
+        n >>= 1; e += 1
+    if e > 127:
+        return sign | 0x7f800000
+    if n < 1 << 23:                         # subnormal (or zero)
+        return sign | n
+    return sign | ((e + 127) << 23) | (n - (1 << 23))
+
+
+def _time_to_seconds_candidates(ns):
+    """every binary32 value within two units in the last place of ns/1e9 (what C18 allows `Quantity::from(Time)` to return)"""
+    exact = _Fr(ns, 10 ** 9)
+    b0 = _rne32_bits(exact)
+    out = []
+    for d in range(-3, 4):
+        mag = (b0 & 0x7fffffff) + (d if exact >= 0 else d)
+        if mag < 0 or mag >= 0x7f800000:
+            continue
+        b = (b0 & 0x80000000) | mag
+        v = _exact_f32("%08x" % b)
+        ulp = abs(_exact_f32("%08x" % ((b & 0x80000000) | (mag + 1))) - v) if mag + 1 < 0x7f800000 else None
+        if ulp is not None and abs(v - exact) <= 2 * ulp:
+            out.append(v)
+    return out
+
+
+def _mixed_time_conformant(case, impl, model):
+    """`q <op> A B` / `q toq T:n` where an operand is a Time and the result a Quantity: C18 pins the result to "the Quantity operator applied
+    after converting", and the conversion only to within two ulps.  True iff the implementation's value is the correctly rounded binary32
+    operator applied to SOME admissible conversion (and its unit equals the model's)."""
+    t = case.split(" ")
+    if t[0] != "q" or not (impl.startswith("Q:") and model.startswith("Q:")) or " " in impl:
+        return False
+    iv, iu = impl.split(":")[1], impl.split(":")[2]
+    mv, mu = model.split(":")[1], model.split(":")[2]
+    if iu != mu:
+        return False
+    def vals(tok):
+        if tok.startswith("T:"):
+            return _time_to_seconds_candidates(int(tok[2:]))
+        if tok.startswith("D:"):
+            return [_exact_f32("%08x" % _rne32_bits(_Fr(int(tok[2:]))))]
+        if tok.startswith("Q:"):
+            v = _exact_f32(tok.split(":")[1])
+            return None if v is None else [v]
+        return None
+    ops = {"add": lambda a, b: a + b, "sub": lambda a, b: a - b, "mul": lambda a, b: a * b,
+           "div": lambda a, b: None if b == 0 else a / b}
+    want = int(iv, 16)
+    if t[1] == "toq" and len(t) == 3 and t[2].startswith("T:"):
+        return any(_rne32_bits(c) == want for c in vals(t[2]))
+    op = t[1][:-2] if t[1].endswith("as") else t[1]
+    if op not in ops or len(t) != 4 or not any(x.startswith("T:") for x in t[2:]):
+        return False
+    A, B = vals(t[2]), vals(t[3])
+    if not A or not B:
+        return False
+    for a in A:
+        for b in B:
+            r = ops[op](a, b)
+            if r is not None and (_rne32_bits(r) & 0xffffffff) == want:
+                return True
+            if r is not None and r == 0 and (want & 0x7fffffff) == 0:
+                return True            # sign of an exact zero
+    return False
+
+
 def precompare_conversions(case, impl, model):
     """C18 (and the copies of these lines in C01/C19): `q tot` — Quantity -> Time — is pinned only "to within one f32 rounding and 1 ns of
     truncation"; `q tod` — Quantity -> DimensionlessInteger — is pinned only in WHETHER it succeeds.  An implementation that differs from
     the model on such a line is judged by the property's own predicate: inside it -> `soft` (the correspondence is broken, no failing input);
     outside -> `hard`.  Returns None for every other line (normal comparison)."""
     t = case.split(" ")
+    if t[0] == "q" and impl != model and _mixed_time_conformant(case, impl, model):
+        return ("soft", "differs from the model but equals the Quantity operator applied to a conversion of the Time within two ulps of ns/1e9")
     if len(t) != 3 or t[0] != "q" or impl == model:
         return None
     if t[1] == "tod":
@@ -2233,6 +2323,51 @@ def precompare_conversions(case, impl, model):
         if abs(y) < 2 ** 63 - 2 ** 40 and abs(n - y) <= abs(y) / 2 ** 24 + 1:
             return ("soft", "differs from the model but is within one f32 rounding + 1 ns of value*1e9")
         return None
+    return None
+
+
+def oracle_C18(lines, impl):
+    """C18's clauses that do not need the model: Time -> Quantity is MONOTONE in the time and within two ulps of ns/1e9"""
+    bad = []
+    pts = []
+    for c, o in zip(lines, impl):
+        t = c.split(" ")
+        if t[:2] == ["q", "toq"] and len(t) == 3 and t[2].startswith("T:") and o.startswith("Q:") and " " not in o:
+            ns = int(t[2][2:])
+            v = _exact_f32(o.split(":")[1])
+            if v is None:
+                bad.append((c, "Time -> Quantity gave a non-finite value: " + o)); continue
+            if v not in _time_to_seconds_candidates(ns):
+                bad.append((c, "Time -> Quantity is not within two ulps of ns/1e9: " + o)); continue
+            pts.append((ns, v, c))
+    pts.sort(key=lambda p: p[0])
+    for (n1, v1, c1), (n2, v2, c2) in zip(pts, pts[1:]):
+        if v2 < v1:
+            bad.append((c2, "Time -> Quantity is not monotone: %d ns -> %s but %d ns -> %s" % (n1, float(v1), n2, float(v2)))); break
+    return bad
+
+
+def precompare_C14(case, impl, model):
+    """`k supd <State> <dt>` — State::update takes its time step through Quantity::from(Time), which C18 pins only to within two ulps:
+    a result whose fields are within a few ulps of the model's is inside what C14 + C18 state (soft: correspondence broken, no failing input)"""
+    t = case.split(" ")
+    if t[:2] != ["k", "supd"] or impl == model or "PANIC" in impl or "PANIC" in model:
+        return None
+    a, b = impl.split("/"), model.split("/")
+    if len(a) != 3 or len(b) != 3:
+        return None
+    mx = 0.0
+    vals = []
+    for x, y in zip(a, b):
+        try:
+            fx, fy = h2f(x), h2f(y)
+        except Exception:
+            return None
+        if fx != fx or fy != fy or abs(fx) == float("inf") or abs(fy) == float("inf"):
+            return None if x != y else None
+        vals.append((fx, fy)); mx = max(mx, abs(fx), abs(fy))
+    if all(abs(fx - fy) <= mx * 2 ** -20 for fx, fy in vals):
+        return ("soft", "State::update differs from the model by a few ulps (the time step's conversion to seconds is pinned only to two ulps)")
     return None
 
 
